@@ -1,4 +1,5 @@
 import RallyProofs.MechanicNeutral
+import RallyProofs.MechanicLauncher
 
 /-!
 # C12 — cluster engine start/stop is all-or-nothing across hosts and reports failures
@@ -208,6 +209,58 @@ theorem external_untouched {cfg : Config} (hx : cfg.external = true) {s : State}
   · intro a b m hm
     have := I.a5 _ hm
     cases a <;> cases b <;> simp [idleOut] at this ⊢
+
+/-! ## node level: every node is its own process
+
+At actor level a node is its id (position in the target-host list); `stop_each_once` says that the
+one `launcher.stop` call of a host group lists exactly that group's node ids.  Below that, the
+`ProcessLauncher` turns a node into an operating-system process through the working directory and
+the relative pid file `./pid` (model: `Mechanic.Launcher`). -/
+
+/-- after EngineStopped every `launcher.stop` call in the whole history addresses exactly the nodes of
+its own host group (so, with `every_node_in_exactly_one_group` and `stop_each_once`, every node is
+addressed by exactly one stop call, once) -/
+theorem stop_addresses_own_nodes {cfg : Config} (hx : cfg.external = false) {s : State} {tr : List Out}
+    (hr : Reach cfg s tr) (hEP : engineStopped ∈ tr) {h : Nat} (hh : h < nHosts cfg) {ids : List Nat}
+    (hc : Out.call h (.lstop ids) ∈ tr) : ids = idsOf cfg h := by
+  have h1 := (stopped_of_EP hx hr hEP h hh).2
+  have h2 : Out.call h (.lstop ids) ∈ tr.filter (isStop h) := List.mem_filter.2 ⟨hc, by simp [isStop]⟩
+  rw [h1, stopCalls_eq] at h2
+  simp only [List.mem_append, List.mem_cons, List.mem_map, List.not_mem_nil, or_false] at h2
+  rcases h2 with (((h2 | h2) | h2) | h2) | h2
+  · injection h2 with _ h2; injection h2
+  · injection h2 with _ h2; cases h2
+  · split at h2
+    · obtain ⟨_, _, h2⟩ := List.mem_map.1 h2; injection h2 with _ h2; cases h2
+    · cases h2
+  · injection h2 with _ h2; cases h2
+  · obtain ⟨_, _, h2⟩ := h2; injection h2 with _ h2; cases h2
+
+/-- `ProcessLauncher.start` / `.stop` for the nodes of one host (distinct installation directories, any sane
+process table): every returned node carries the pid that *its own* daemon wrote into *its own*
+installation, these pids are pairwise distinct live processes; after `stop` none of them runs, each
+has received exactly one SIGTERM more than before, and no other process has been touched. -/
+theorem launcher_tracks_own_process_and_stops_each_once (dirs : List Nat) (w : Launcher.World)
+    (hs : Launcher.Sane w) (hd : dirs.Nodup) :
+    let r := Launcher.startAll w dirs
+    let w' := Launcher.stopAll r.1 r.2
+    r.2.map (·.1) = dirs ∧ (∀ n ∈ r.2, r.1.pidFile n.1 = some n.2 ∧ n.2 ∈ r.1.running) ∧ (r.2.map (·.2)).Nodup ∧
+      (∀ n ∈ r.2, n.2 ∉ w'.running ∧ w'.terms.count n.2 = w.terms.count n.2 + 1) ∧
+      (∀ q, q ∈ w.running → q ∈ w'.running ∧ w'.terms.count q = w.terms.count q) :=
+  Launcher.start_stop dirs w hs hd
+
+/-- the statement is about the mechanism, not a tautology: launching all nodes first and reading the
+relative `./pid` afterwards (every read then resolves against the LAST working directory) tracks one
+process for all nodes -/
+def launchAllThenAwait (w : Launcher.World) (dirs : List Nat) : List (Nat × Nat) :=
+  let w1 := dirs.foldl (fun w d => Launcher.spawn (Launcher.chdir w d)) w
+  dirs.map (fun d => (d, Launcher.readPid w1))
+
+example : (Launcher.startAll ⟨0, fun _ => none, 100, [], []⟩ [1, 2, 3]).2 = [(1, 100), (2, 101), (3, 102)] ∧
+    launchAllThenAwait ⟨0, fun _ => none, 100, [], []⟩ [1, 2, 3] = [(1, 102), (2, 102), (3, 102)] := by decide
+
+example : Launcher.Sane ⟨0, fun _ => none, 100, [7, 9], []⟩ ∧ [1, 2, 3].Nodup :=
+  ⟨⟨by decide, by decide⟩, by decide⟩
 
 /-! ## ambient switches are neutral
 
